@@ -37,7 +37,7 @@ CONSTANTS MaxBlocks,   \* blocks per elementary leg
           QX,          \* integers offered to qtotal_LR / qtotal_Q
           FillModes,   \* subset of {"absent","zero","rank1","gen","diag","first","nil","idiag"}
           NSeeds,      \* entry patterns
-          Cplx,        \* subset of BOOLEAN
+          Dtypes,      \* subset of {"int", "float", "complex"}: dtype of the Array (entries are Gaussian integers anyway)
           Ops,         \* enabled operations
           QModes,      \* subset of {"NN","LN","NR","LR","bad"}
           IQs,         \* subset of {1,-1}    inner_qconj
@@ -171,7 +171,7 @@ MkTensor(t0, L, R, qt, modes, seed, c) ==
                          ELSE IF modes[k] = "first" THEN {<<SBlock(L, fr(k)), SBlock(R, fc(k))>>}
                          ELSE {<<SBlock(L, i), SBlock(R, j)>> : i \in RowsOf(sk, k), j \in ColsOf(sk, k)} : k \in sk.mkeys}
     IN [mod |-> t0.mod, kind |-> t0.kind, shape |-> t0.shape, L |-> L, R |-> R, qtotal |-> qt,
-        cplx |-> c, seed |-> seed, modes |-> modes, M |-> M, stored |-> stored]
+        cplx |-> c, dt |-> t0.dt, seed |-> seed, modes |-> modes, M |-> M, stored |-> stored]
 
 -----------------------------------------------------------------------------
 \* exact analysis
@@ -263,7 +263,7 @@ PickLeg(leg) ==
     /\ UNCHANGED <<phase, ana, nops, hist>>
 
 \* total charge, pipe directions, entry pattern (cheap step: nothing is computed yet)
-PickParams(qt, pqL, pqR, seed, c) ==
+PickParams(qt, pqL, pqR, seed, dt) ==
     /\ phase = "legs" /\ Len(T.legs) = Needed(T)
     /\ LET nL == T.shape[1]
            nR == T.shape[2]
@@ -276,7 +276,7 @@ PickParams(qt, pqL, pqR, seed, c) ==
           /\ (SquareKind(T.kind) => qt = Min(QTs))
           /\ \A k \in sk.mkeys : IMin(Cardinality(RowsOf(sk, k)), Cardinality(ColsOf(sk, k))) <= 4
           /\ T' = [mod |-> T.mod, kind |-> T.kind, shape |-> T.shape, L |-> L, R |-> R, qtotal |-> q,
-                   seed |-> seed, cplx |-> c, todo |-> SetToSeq(sk.mkeys), modes |-> <<>>]
+                   seed |-> seed, cplx |-> (dt = "complex"), dt |-> dt, todo |-> SetToSeq(sk.mkeys), modes |-> <<>>]
     /\ phase' = "modes"
     /\ last' = [op |-> "params"]
     /\ UNCHANGED <<ana, nops, hist>>
@@ -301,7 +301,7 @@ Build ==
     /\ UNCHANGED <<nops, hist>>
 
 DoParams == phase = "legs" /\ Len(T.legs) = Needed(T) /\
-            \E o \in Pick(SampPar, {o \in QTs \X {1, -1} \X {1, -1} \X (1..NSeeds) \X Cplx :
+            \E o \in Pick(SampPar, {o \in QTs \X {1, -1} \X {1, -1} \X (1..NSeeds) \X Dtypes :
                                       /\ (T.shape[1] = 1 => o[2] = 1)
                                       /\ ((T.shape[2] = 1 \/ SquareKind(T.kind)) => o[3] = 1)
                                       /\ (SquareKind(T.kind) => o[1] = Min(QTs))}) :
@@ -353,7 +353,8 @@ Svd(cu, full, cut, c2, qm, x, iq, lab) ==
         K == SumOver(Sects, mu)
         res == IF full /\ (~cu \/ cut # "none") THEN "ValueError"
                ELSE IF qm = "bad" THEN "ValueError"
-               ELSE IF K = 0 THEN "RuntimeError" ELSE "ok"
+               ELSE IF K = 0 /\ cut # "none" THEN "RuntimeError"     \* nothing above the cutoff: explicit error
+               ELSE "ok"                                          \* K = 0 without cutoff: empty factors (as qr)
         base == [op |-> "svd", cu |-> cu, full |-> full, cut |-> cut, c2 |-> c2, qm |-> qm, argLR |-> argLR,
                  iq |-> iq, lab |-> lab, res |-> res]
     IN IF res # "ok" THEN base
@@ -414,9 +415,10 @@ DoEigvalsh == phase = "op" /\ EigenEnabled("eigvalsh") /\ \E sort \in Pick(SampO
 DoEigvals == phase = "op" /\ EigenEnabled("eigvals") /\ \E sort \in Pick(SampOpt, Sorts) : Finish(Eigen("eigvals", sort))
 
 \* ---- speigs(a, charge_sector, k): k eigenpairs inside one charge sector
-\* (only k >= m-1, where tenpy.tools.math.speigs solves the block densely; ARPACK's convergence is not modelled)
+\* (only k >= m-1, where tenpy.tools.math.speigs solves the block densely; ARPACK's convergence is not modelled --
+\*  except for a stored all-zero block, whose eigenpairs are trivially (0, any basis vector))
 DoSpeigs == phase = "op" /\ T.kind \in {"herm", "sq"} /\
-    \E o \in Pick(SampOpt, {o \in Sects \X (1..4) \X BOOLEAN : o[1].m > 0 /\ o[2] <= o[1].m /\ o[2] >= o[1].m - 1}) :
+    \E o \in Pick(SampOpt, {o \in Sects \X (1..4) \X BOOLEAN : o[1].m > 0 /\ o[2] <= o[1].m /\ (o[2] >= o[1].m - 1 \/ o[1].mode = "zero")}) :
        LET s == o[1] k == o[2] vec == o[3] IN
        Finish([op |-> "speigs", sector |-> s.key, k |-> k, vec |-> vec, res |-> "ok", m |-> s.m, stored |-> s.stored,
                sub |-> SubMat(T.M, s.rows, s.cols), rows |-> s.rows])
